@@ -1099,7 +1099,7 @@ func (c *FuncCtx) declareSpecFn(e *SpecEnv, sf *SpecFn) {
 		sorts = append(sorts, k.Sort)
 	}
 	body = ne.coerce(body, e.specFnType(sf, sf.Ret))
-	if sf.Opaque && len(ps) > 0 {
+	if sf.Opaque && len(ps) > 0 && !(c.inLemma && sf.Abstract && !sf.Rec) {
 		var pnames []string
 		for _, p := range sf.Params {
 			pnames = append(pnames, p.Name+"!p")
